@@ -40,7 +40,7 @@ def to_steps(seq, waits=None):
         elif s == "par01x":                                  # three tasks send to t0:0, t0:1 and t1:0 at once
             steps.append(["par", [[["send", 0, 0, False]], [["send", 1, 0, False]], [["send", 100, 0, False]]]])
         elif s == "offsets":
-            steps.append(["offsets", {"0": 5 + i}, "g"])
+            steps.append(["offsets", {"0": 5 + i, "1": 50 + i}, "g"])      # offsets of two source partitions
         elif s in ("commit", "abort"):
             steps.append([s])
         elif s in ("ctx_ok", "ctx_exc"):
